@@ -144,7 +144,12 @@ def _check_ice(utils, P, A, want, case):
         if k >= 16:
             break
         cands.add(g)
-    for g in sorted(cands):
+    cands = sorted(cands)
+    if p > 20:                                  # big graphs: a deterministic sample of the mutations (members always included)
+        keepers = [g for g in cands if g in want]
+        rest = [g for g in cands if g not in want]
+        cands = keepers + rest[:: max(1, len(rest) // 60)]
+    for g in cands:
         if not G.is_acyclic_digraph(g):
             continue
         exp = g in want
@@ -152,7 +157,7 @@ def _check_ice(utils, P, A, want, case):
         if bool(got) != exp:
             raise Violation("ice_wrong", "is_consistent_extension(G=%s, P=%s) = %r, expected %r"
                             % (G.lists_from_rows(g), G.lists_from_rows(P), got, exp))
-        if (hash(g) + len(cands)) % 5 == 0:          # the tracing flag must not change the verdict
+        if (sum(g) + len(cands)) % 5 == 0:          # the tracing flag must not change the verdict
             od = lib_debug(utils.is_consistent_extension, to_np(g), A)
             if od is not None and bool(must(od, "is_consistent_extension(debug=True)")) != exp:
                 raise Violation("ice_wrong", "is_consistent_extension(G=%s, P=%s, debug=True) = %r, expected %r"
@@ -318,6 +323,16 @@ def _big_cases(tier, seed):
         P[i][j] = P[j][i] = 1
     P[8][0] = 1
     out.append(P)
+    # a DAG with astronomically many directed walks (every node has the 6 previous ones - in a scrambled order - as parents):
+    # it is its own and only consistent extension
+    pb = 200
+    lab = [(7 * k + seed) % pb for k in range(pb)]
+    Pb = [[0] * pb for _ in range(pb)]
+    for k in range(pb):
+        for d in range(1, 7):
+            if k - d >= 0:
+                Pb[lab[k - d]][lab[k]] = 1
+    out.append(Pb)
     if tier == "thorough":
         Q = [row[:] for row in P]
         Q[8][7] = 1
@@ -364,10 +379,10 @@ def run(job):
     sub = job["sub"]
     if sub == "alldags_big":
         P = _big_cases(job["tier"], job["seed"])[job["index"]]
-        case = {"sub": "alldags_big", "P": P, "dtype": "int", "ice": False}
+        case = {"sub": "alldags_big", "P": P, "dtype": "int", "ice": len(P) >= 100}
         try:
             lab = check(case)
-            acc.record(case, lab + ["undirected_ge_13"], True, by_construction=True)
+            acc.record(case, lab + ["undirected_ge_13" if len(P) < 100 else "many_walks"], True, by_construction=True)
         except Violation as v:
             acc.record(case, [], False)
             acc.violation(case, v)
